@@ -70,7 +70,7 @@ Resolve(s, a) ==   \* two variables given by name or by level -> names
 (* ---- operation clauses for a call that RETURNED ---- *)
 OpClauses(e, s, t) ==
   LET a == e.a  r == e.ret IN
-  CASE e.op \in {"init", "sync", "other"} -> {}
+  CASE e.op \in {"init", "sync", "other", "reject"} -> {}
     [] e.op = "var" -> Bool2Set(VarC(s, t, a.name, r), "op.var")
     [] e.op = "ite" ->
          \* a witness call re-asks, after a cache-clearing action, a question the
@@ -97,6 +97,9 @@ OpClauses(e, s, t) ==
          Bool2Set(FindOrAddC(s, t, a.level, a.low, a.high, r), "canon.find_or_add")
     [] e.op \in {"incref", "decref"} -> Bool2Set(CountsOnlyC(s, t), "ref.counts_only")
     [] e.op = "gc" -> Bool2Set(CollectFullC(s, t, Ledger(s)), "gc.exact")
+                      \* C08: once every Function is gone a collection leaves only the terminal
+                      \cup (IF "final" \in DOMAIN a /\ Nodes(t) # {1} THEN {"auto.all_dropped"} ELSE {})
+    [] e.op = "shutdown" -> {}
     [] e.op = "gc_roots" -> Bool2Set(CollectRootedC(s, t, Ledger(s), SeqSet(a.roots)), "gc.rooted")
     [] e.op = "swap" ->
          LET xy == Resolve(s, a) IN
@@ -131,6 +134,7 @@ OrderOps == {"swap", "reorder", "sift", "pairs", "add_var", "declare", "undeclar
 (* must-accept: a call inside its contract that the specification enables *)
 RaisedClauses(e, s, t) ==
   LET a == e.a IN
+  IF e.op = "shutdown" THEN {"auto.shutdown"} ELSE
   (IF RaisedC(s, t) THEN {} ELSE {"exc.order"})
   \cup (IF e.exc = "_NeedsReordering" THEN {"dyn.signal_escaped"} ELSE {})
   \cup (CASE e.op = "add_var" -> IF AddVarRefusedOK(s, a.name, a.level) THEN {} ELSE {"decl.spurious_refusal"}
@@ -158,23 +162,45 @@ DynClauses(e, t) ==
                THEN {} ELSE {"dyn.result"}
           ELSE {})
 
-Verdict(e, s0, t0) ==
+(* C17: what a rejected call may not disturb.  For an event that raised its
+   own exception (not part of a dynamic-reordering enumeration) every
+   structural / frame failure is ALSO reported under an exc.* name, and a
+   failing contract of the call right after a rejected one as exc.next. *)
+ExcView(e, s, t, base) ==
+  IF e.exc = "" \/ "dyn" \in DOMAIN e THEN {}
+  ELSE (IF \E c \in base : c \in {"canon.terminal", "canon.edges", "canon.high_regular", "canon.reduced",
+                                   "canon.unique", "canon.ordered", "canon.den_injective", "canon.malformed",
+                                   "order.bijection"}
+        THEN {"exc.canonical"} ELSE {})
+       \cup (IF "ref.exact" \in base \/ "minfree" \in base THEN {"exc.ref"} ELSE {})
+       \cup (IF \E c \in base : c \in {"frame.held", "gc.held_changed", "reorder.held_den", "decl.held", "dyn.operands"}
+            THEN {"exc.held"} ELSE {})
+       \cup (IF t.ctx THEN {"exc.flags"} ELSE {})
+       \cup (IF "dynnat" \notin DOMAIN e /\ t.lastlen # s.lastlen THEN {"exc.flags"} ELSE {})
+       \cup (IF "dynnat" \in DOMAIN e /\ t.lastlen = Off /\ s.lastlen # Off THEN {"exc.flags"} ELSE {})
+NextView(e, base) ==
+  IF e.exc = "" /\ e.pre >= 1 /\ Ev(e.pre).exc # "" /\ "dyn" \notin DOMAIN e /\ base # {}
+  THEN {"exc.next"} ELSE {}
+
+Verdict0(e, s0, t0) ==
   IF ~(AllWellFormed(t0) /\ AllWellFormed(s0))
   THEN {"canon.malformed"} \cup StructNoDen(t0)
        \cup (IF e.exc = "" THEN {"op." \o e.op} ELSE {"exc.canonical"})
        \cup (IF "dyn" \in DOMAIN e THEN {"dyn.result"} ELSE {})
   ELSE LET s == WithD(s0)
            t == WithD(t0)
-       IN Struct(t)
-          \cup (IF FrameOK(s, t) THEN {} ELSE {FrameName(e)})
-          \cup (IF "views" \in DOMAIN e /\ ~ViewsOK(e, t) THEN {"decl.views"} ELSE {})
-          \cup (IF "dyn" \in DOMAIN e THEN DynClauses(e, t) ELSE {})
-          \cup (IF "dynnat" \in DOMAIN e    \* natural triggering: stays enabled, no signal
-               THEN (IF t.lastlen = Off /\ s.lastlen # Off THEN {"dyn.not_rearmed"} ELSE {})
-                    \cup (IF e.exc = "_NeedsReordering" THEN {"dyn.signal_escaped"} ELSE {})
-               ELSE {})
-          \cup (IF e.exc = "" THEN OpClauses(e, s, t)
-               ELSE IF "dyn" \in DOMAIN e \/ "dynnat" \in DOMAIN e THEN {} ELSE RaisedClauses(e, s, t))
+           base == (IF e.op = "shutdown" THEN {} ELSE Struct(t))
+                   \cup (IF FrameOK(s, t) THEN {} ELSE {FrameName(e)})
+                   \cup (IF "views" \in DOMAIN e /\ ~ViewsOK(e, t) THEN {"decl.views"} ELSE {})
+                   \cup (IF "dyn" \in DOMAIN e THEN DynClauses(e, t) ELSE {})
+                   \cup (IF "dynnat" \in DOMAIN e    \* natural triggering: stays enabled, no signal
+                        THEN (IF t.lastlen = Off /\ s.lastlen # Off /\ e.op # "other" THEN {"dyn.not_rearmed"} ELSE {})
+                             \cup (IF e.exc = "_NeedsReordering" THEN {"dyn.signal_escaped"} ELSE {})
+                        ELSE {})
+                   \cup (IF e.exc = "" THEN OpClauses(e, s, t)
+                        ELSE IF "dyn" \in DOMAIN e \/ "dynnat" \in DOMAIN e THEN {} ELSE RaisedClauses(e, s, t))
+       IN base \cup ExcView(e, s, t, base)
+Verdict(e, s0, t0) == LET b == Verdict0(e, s0, t0) IN b \cup NextView(e, b)
 
 Init == tid \in 1..Len(Traces) /\ l = 0
 Next == /\ l < Len(Traces[tid].events)
